@@ -50,8 +50,8 @@ Print Assumptions C01_evaluator_sound.
    interpreter with the cache off and tracing off: WHENEVER a method returns -- with a truthy value, or with a failure
    -- the reference semantics of Sem/Peg.v derives exactly that for the grammar read back: success with the SAME value
    and the SAME end position, or failure (and then the value is None and the position is where it was).  By
-   C01_reference_semantics_deterministic that is THE answer the semantics prescribes.  (What is not covered: runs that
-   raise -- StopIteration at the end of the token list, a forced item -- or run out of fuel.)  Every token list, every
+   C01_reference_semantics_deterministic that is THE answer the semantics prescribes.  (What is not covered here: runs that
+   raise -- StopIteration at the end of the token list; for a forced item see the SyntaxError theorems below -- or run out of fuel.)  Every token list, every
    state, every amount of fuel.  The hypotheses concern the environment only: the action interpreter evaluates the
    default action text (a name, or a list display of names) as Python does, and on the given token list expect() matches
    literals by their text and token kinds by their kind (the conflation recorded in the C11 findings is excluded).
@@ -70,7 +70,7 @@ Theorem C01_interpreter_implements_the_reference_semantics_on_flat_modules :
   run K toks false false M aeval exact_types token_dict fuel n st = (Ok v, st') ->
   exists res, peg_item K (dec_module M) toks (i_keywords M) (i_soft_keywords M) aevalP item_name forced_msg (NameLeaf n) (pos st) res /\
               ((truthy v = true /\ res = PSucc v (pos st')) \/ (v = VNone /\ res = PFail /\ pos st' = pos st)).
-Proof. exact flat_run_agrees. Qed.
+Proof. exact flat_run_agrees'. Qed.
 Print Assumptions C01_interpreter_implements_the_reference_semantics_on_flat_modules.
 
 (* Non-vacuity: the module the generator model emits for a grammar with an optional, a lookahead, a cut, a forced
@@ -96,3 +96,157 @@ Example C01_flat_example :
   end.
 Proof. vm_compute. split; reflexivity. Qed.
 Print Assumptions C01_flat_example.
+
+(* COMPILATION CORRECTNESS, second fragment (fourth session; Proofs/IrSem.v): repetitions and gathers.  The fragment
+   [ir_ok] adds to the flat one the helper methods the generator creates for `x*`, `x+` (a loop method whose single
+   alternative is collected until it fails) and for `s.x+` (a _gather_ method over a _loop0_ method with the action
+   `[elem] + seq`).  The module is read back ([dec_module1]) with the repetitions INLINE (Repeat0 / Repeat1 over the loop's
+   body) and each gather helper as a rule whose body is the gather.  WHENEVER a plain method returns -- truthy, or a failure
+   -- the reference semantics derives exactly that for the grammar read back; a zero-or-more helper returns the list
+   the greedy repetition of the semantics yields, a one-or-more helper that list or None when it is empty, a gather's
+   loop the list of `s x` repetitions.  A one-or-more helper may be called wherever a rule may (bare, under an optional, a
+   lookahead, a forced item); a zero-or-more helper as `self._loop0_k(),`.  Every token list, state and amount of fuel; environment hypotheses as above plus
+   the gather action. *)
+From Pegen Require Import Proofs.IrSem.
+Theorem C01_interpreter_implements_the_reference_semantics_with_repetitions_and_gathers :
+  forall K toks M aeval exact_types token_dict aevalP item_name forced_msg,
+  ir_ok M = true ->
+  (forall xs e vs, nodup_s xs = true -> Forall2 (fun x v => env_get e x = Some v) xs vs ->
+     aeval (default_text xs) e = Some (match vs with [v] => v | _ => VList vs end)) ->
+  (forall e v vs, env_get e "elem" = Some v -> env_get e "seq" = Some (VList vs) -> aeval "[elem] + seq" e = Some (VList (v :: vs))) ->
+  (forall s t, In t toks -> is_kind2 s = false -> expect_test K exact_types token_dict s t = String.eqb (tstr t) s) ->
+  (forall s t, In t toks -> is_kind2 s = true -> expect_test K exact_types token_dict s t = kind2_test K M s t) ->
+  forall fuel n st v st',
+  run K toks false false M aeval exact_types token_dict fuel n st = (Ok v, st') ->
+  Spec K toks M aevalP item_name forced_msg n v st st'.
+Proof. exact ir_run_agrees. Qed.
+Print Assumptions C01_interpreter_implements_the_reference_semantics_with_repetitions_and_gathers.
+
+(* ... and back to the SOURCE grammar (Proofs/Desugar.v, Proofs/GenSem.v).  [reads_back_as rs M] is decidable: M is in
+   the fragment above, every source rule has a plain method, and the grammar read back from M is related to rs the way
+   the generator relates them -- a group or a bracketed list of alternatives became a reference to a helper rule with
+   related alternatives, or, when it held one value-carrying item, that item; a repetition repeats a one-item group;
+   a gather became a reference to a rule whose body is the gather; an optional of what cannot fail (an optional, a
+   zero-or-more repetition) was emitted as is; a rule whose body is one parenthesised group has the group's alternatives
+   (Rule.flatten); nothing has an action.  The relation is proved sound
+   for the reference semantics (desugar_sound: whatever is derivable for the grammar read back is derivable for the
+   source, same value, same position, failure or error), so for EVERY grammar rs and module M with
+   reads_back_as rs M = true -- in particular M := the generator model's output for rs, which every run compares
+   character by character with the real generator's text -- whenever the method of a source rule returns, truthy or a
+   failure, that is what the reference semantics of the SOURCE grammar prescribes.  This is the statement of C01
+   (soundness direction, returning runs) for action-free, non-left-recursive grammars without invalid_ rules. *)
+From Pegen Require Import Proofs.Desugar Proofs.GenSem.
+Theorem C01_generated_parser_implements_the_source_grammar :
+  forall K toks M aeval exact_types token_dict aevalP item_name fm rs,
+  reads_back_as rs M = true ->
+  (forall xs e vs, nodup_s xs = true -> Forall2 (fun x v => env_get e x = Some v) xs vs ->
+     aeval (default_text xs) e = Some (match vs with [v] => v | _ => VList vs end)) ->
+  (forall e v vs, env_get e "elem" = Some v -> env_get e "seq" = Some (VList vs) -> aeval "[elem] + seq" e = Some (VList (v :: vs))) ->
+  (forall s t, In t toks -> is_kind2 s = false -> expect_test K exact_types token_dict s t = String.eqb (tstr t) s) ->
+  (forall s t, In t toks -> is_kind2 s = true -> expect_test K exact_types token_dict s t = kind2_test K M s t) ->
+  forall fuel n st v st', find_rule rs n <> None ->
+  run K toks false false M aeval exact_types token_dict fuel n st = (Ok v, st') ->
+  exists res, peg_item K rs toks (i_keywords M) (i_soft_keywords M) aevalP item_name (fun _ => fm) (NameLeaf n) (pos st) res /\
+              ((truthy v = true /\ res = PSucc v (pos st')) \/ (v = VNone /\ res = PFail /\ pos st' = pos st)).
+Proof. exact run_agrees_with_source. Qed.
+Print Assumptions C01_generated_parser_implements_the_source_grammar.
+
+(* The same with the packrat cache ON (what generated parsers run with), by C04's cache transparency: for modules
+   without left-recursive leaders and without *_without_invalid methods, from a state with an empty cache, whenever the
+   uncached run terminates within the fuel, what the CACHED run of a rule's method returns is what the reference
+   semantics of the source grammar prescribes. *)
+From Pegen Require Import Proofs.CacheStable.
+Theorem C01_generated_parser_with_cache_implements_the_source_grammar :
+  forall K toks M aeval exact_types token_dict aevalP item_name fm rs,
+  reads_back_as rs M = true -> no_left_rec M = true -> no_wi M = true ->
+  (forall xs e vs, nodup_s xs = true -> Forall2 (fun x v => env_get e x = Some v) xs vs ->
+     aeval (default_text xs) e = Some (match vs with [v] => v | _ => VList vs end)) ->
+  (forall e v vs, env_get e "elem" = Some v -> env_get e "seq" = Some (VList vs) -> aeval "[elem] + seq" e = Some (VList (v :: vs))) ->
+  (forall s t, In t toks -> is_kind2 s = false -> expect_test K exact_types token_dict s t = String.eqb (tstr t) s) ->
+  (forall s t, In t toks -> is_kind2 s = true -> expect_test K exact_types token_dict s t = kind2_test K M s t) ->
+  forall fuel n st v st', find_rule rs n <> None -> cache st = [] ->
+  fst (run K toks false false M aeval exact_types token_dict fuel n st) <> OutOfFuel ->
+  run K toks false true M aeval exact_types token_dict fuel n st = (Ok v, st') ->
+  exists res, peg_item K rs toks (i_keywords M) (i_soft_keywords M) aevalP item_name (fun _ => fm) (NameLeaf n) (pos st) res /\
+              ((truthy v = true /\ res = PSucc v (pos st')) \/ (v = VNone /\ res = PFail /\ pos st' = pos st)).
+Proof. exact cached_run_agrees_with_source. Qed.
+Print Assumptions C01_generated_parser_with_cache_implements_the_source_grammar.
+
+(* The third outcome of C01: a SyntaxError raised by the parse -- the only place the interpreter raises one is a forced
+   item whose operand failed -- is a forced-item error (PErr) of the SOURCE grammar's reference semantics at that rule
+   and position; uncached and cached.  (Messages and the token the error points at are not compared here; C07/C14 and
+   the per-case checks cover them.)  With the two theorems above: every run of a rule's method that returns or raises
+   SyntaxError has the outcome the semantics prescribes; runs ending in another exception (StopIteration past the end
+   of the tokens, a raising action) or out of fuel are outside. *)
+Theorem C01_syntax_errors_are_forced_errors_of_the_source_grammar :
+  forall K toks M aeval exact_types token_dict aevalP item_name fm rs,
+  reads_back_as rs M = true ->
+  (forall xs e vs, nodup_s xs = true -> Forall2 (fun x v => env_get e x = Some v) xs vs ->
+     aeval (default_text xs) e = Some (match vs with [v] => v | _ => VList vs end)) ->
+  (forall e v vs, env_get e "elem" = Some v -> env_get e "seq" = Some (VList vs) -> aeval "[elem] + seq" e = Some (VList (v :: vs))) ->
+  (forall s t, In t toks -> is_kind2 s = false -> expect_test K exact_types token_dict s t = String.eqb (tstr t) s) ->
+  (forall s t, In t toks -> is_kind2 s = true -> expect_test K exact_types token_dict s t = kind2_test K M s t) ->
+  forall fuel n st ea t st', find_rule rs n <> None ->
+  run K toks false false M aeval exact_types token_dict fuel n st = (Raise (XSyntaxError ea t), st') ->
+  exists msg q, peg_item K rs toks (i_keywords M) (i_soft_keywords M) aevalP item_name (fun _ => fm) (NameLeaf n) (pos st) (PErr msg q).
+Proof. exact run_raise_agrees_with_source. Qed.
+Print Assumptions C01_syntax_errors_are_forced_errors_of_the_source_grammar.
+
+Theorem C01_syntax_errors_with_cache_are_forced_errors_of_the_source_grammar :
+  forall K toks M aeval exact_types token_dict aevalP item_name fm rs,
+  reads_back_as rs M = true -> no_left_rec M = true -> no_wi M = true ->
+  (forall xs e vs, nodup_s xs = true -> Forall2 (fun x v => env_get e x = Some v) xs vs ->
+     aeval (default_text xs) e = Some (match vs with [v] => v | _ => VList vs end)) ->
+  (forall e v vs, env_get e "elem" = Some v -> env_get e "seq" = Some (VList vs) -> aeval "[elem] + seq" e = Some (VList (v :: vs))) ->
+  (forall s t, In t toks -> is_kind2 s = false -> expect_test K exact_types token_dict s t = String.eqb (tstr t) s) ->
+  (forall s t, In t toks -> is_kind2 s = true -> expect_test K exact_types token_dict s t = kind2_test K M s t) ->
+  forall fuel n st ea t st', find_rule rs n <> None -> cache st = [] ->
+  fst (run K toks false false M aeval exact_types token_dict fuel n st) <> OutOfFuel ->
+  run K toks false true M aeval exact_types token_dict fuel n st = (Raise (XSyntaxError ea t), st') ->
+  exists msg q, peg_item K rs toks (i_keywords M) (i_soft_keywords M) aevalP item_name (fun _ => fm) (NameLeaf n) (pos st) (PErr msg q).
+Proof. exact cached_run_raise_agrees_with_source. Qed.
+Print Assumptions C01_syntax_errors_with_cache_are_forced_errors_of_the_source_grammar.
+
+(* Non-vacuity: a grammar with a gather, an optional group, `[x]`, a one-or-more and a zero-or-more repetition; the
+   module the generator model emits for it has five helper methods and reads back as the grammar. *)
+Definition ni02 (k : N) (i : item) := NItem k None None i.
+Definition g02 : grammar :=
+  {| rules :=
+       [{| rname := "start"; rtype := None; rmemo := false;
+           rrhs := Rhs 1 [Alt [ni02 2 (Gather 3 (StringLeaf "','") (NameLeaf "item")); ni02 4 (NameLeaf "NEWLINE")] None] |};
+        {| rname := "item"; rtype := None; rmemo := false;
+           rrhs := Rhs 5 [Alt [ni02 6 (NameLeaf "NAME"); ni02 7 (Opt (Group (Rhs 8 [Alt [ni02 9 (StringLeaf "'='"); ni02 10 (NameLeaf "NUMBER")] None])))] None;
+                          Alt [ni02 11 (Repeat1 12 (NameLeaf "NUMBER"))] None;
+                          Alt [ni02 13 (StringLeaf "'('"); ni02 14 (Opt (RhsItem (Rhs 15 [Alt [ni02 16 (NameLeaf "item")] None]))); ni02 17 (StringLeaf "')'");
+                               ni02 18 (Repeat0 19 (NameLeaf "STRING"))] None] |}];
+     metas := [] |}.
+Example C01_source_example :
+  match generate [] [] "" "" "g" 100 g02 {| a_nullable := []; a_item_nullable := [7%N; 14%N; 18%N]; a_graph := []; a_left_rec := []; a_leaders := [] |} with
+  | inl M => reads_back_as (rules g02) M = true /\ no_left_rec M = true /\ no_wi M = true /\
+             map m_name (i_meths M) = ["start"; "item"; "_loop0_2"; "_gather_1"; "_tmp_3"; "_loop1_4"; "_loop0_5"]
+  | inr _ => False
+  end.
+Proof. vm_compute. repeat split; reflexivity. Qed.
+Print Assumptions C01_source_example.
+
+(* Non-vacuity of the SyntaxError theorems: `start: (NAME &&':')+ NEWLINE` on  a : b NEWLINE  -- the second round of the
+   repetition finds no ':' after b, the forced item raises; the module reads back as the grammar. *)
+Definition KD01 : kinds := {| kNAME := 1; kNUMBER := 2; kSTRING := 3; kOP := 55; kNEWLINE := 4; kINDENT := 5; kDEDENT := 6;
+  kENDMARKER := 0; kTYPE_COMMENT := 59; kFSTRING_START := 61; kFSTRING_MIDDLE := 62; kFSTRING_END := 63; kASYNC := 57; kAWAIT := 56 |}.
+Definition mkt01 (k : N) (s : string) (c : nat) : rtok :=
+  {| ty := k; tstr := s; sline := 1; scol := c; eline := 1; ecol := c + 1; tline := ""; tspace := false |}.
+Definition g03 : grammar :=
+  {| rules := [{| rname := "start"; rtype := None; rmemo := false;
+                  rrhs := Rhs 1 [Alt [ni02 2 (Repeat1 3 (Group (Rhs 4 [Alt [ni02 5 (NameLeaf "NAME"); ni02 6 (Forced (StringLeaf "':'"))] None])));
+                                      ni02 7 (NameLeaf "NEWLINE")] None] |}];
+     metas := [] |}.
+Example C01_syntax_error_example :
+  match generate [] [] "" "" "g" 100 g03 {| a_nullable := []; a_item_nullable := []; a_graph := []; a_left_rec := []; a_leaders := [] |} with
+  | inl M => reads_back_as (rules g03) M = true /\ no_left_rec M = true /\ no_wi M = true /\
+             fst (run KD01 [mkt01 1 "a" 0; mkt01 55 ":" 1; mkt01 1 "b" 2; mkt01 4 "" 3; mkt01 0 "" 4] false true M
+                      (fun _ _ => Some VTrue) [] [] 50 "start" init_state)
+             = Raise (XSyntaxError "expected" (Some (mkt01 4 "" 3)))
+  | inr _ => False
+  end.
+Proof. vm_compute. repeat split; reflexivity. Qed.
+Print Assumptions C01_syntax_error_example.
